@@ -6,6 +6,8 @@ quantified hypotheses dropped (only their ground instances kept; sound: fewer hy
 anything else = unknown (never reported as a violation).
 """
 import os
+import sys
+sys.setrecursionlimit(max(sys.getrecursionlimit(), 20000))
 import subprocess
 import tempfile
 import time
@@ -50,8 +52,14 @@ def skolemize_goal(goal, n=[0]):
     return res
 
 
-def index_terms(fs, limit=14):
-    """Int-sorted terms used as sequence indices / array keys / function arguments in ground formulas."""
+def index_terms(fs, limit=14, first=None):
+    """Int-sorted terms used as sequence indices / array keys / function arguments in ground formulas.
+    `first`: formulas (the negated goal) whose index terms are kept ahead of the length-sorted rest."""
+    if first is not None:
+        head = index_terms(first, limit=limit)
+        ids = {t.get_id() for t in head}
+        rest = [t for t in index_terms(fs, limit=limit + len(head)) if t.get_id() not in ids]
+        return (head + rest)[:max(limit, len(head))]
     seen = {}
     visited = set()
 
@@ -195,13 +203,140 @@ def ematch(hyps, ground, limit=200):
     return [i for i in insts if not z3.is_true(i)]
 
 
-def instantiate(hyps, ground, max_inst=400):
+def skolemize_pos(f, new_consts, n=[0]):
+    """Replace existential quantifiers in positive positions (not under another quantifier) by fresh constants: f is satisfiable iff the result is,
+    and the result implies f -- used on ground instances of hypotheses, whose witnesses then serve as instantiation terms."""
+    def go(e, pos):
+        if z3.is_quantifier(e):
+            if (not e.is_forall()) == pos and not e.is_lambda():
+                n[0] += 1
+                consts = [z3.Const("%s!sk%d" % (e.var_name(i), n[0]), e.var_sort(i)) for i in range(e.num_vars())]
+                new_consts.extend(consts)
+                body = z3.substitute_vars(e.body(), *reversed(consts))
+                body = go(body, pos)
+                return body
+            return e
+        if not z3.is_app(e) or not _has_quant(e):
+            return e
+        k = e.decl().kind()
+        ch = e.children()
+        if k in (z3.Z3_OP_AND, z3.Z3_OP_OR):
+            return e.decl()(*[go(c, pos) for c in ch])
+        if k == z3.Z3_OP_NOT:
+            return z3.Not(go(ch[0], not pos))
+        if k == z3.Z3_OP_IMPLIES:
+            return z3.Implies(go(ch[0], not pos), go(ch[1], pos))
+        return e
+    return go(f, True)
+
+
+def weaken_foralls(f, int_terms, other_terms):
+    """A universal quantifier in a positive position inside an (otherwise ground) instance is replaced by the conjunction of its instances at the
+    given terms: a consequence of the original, so adding it is sound; it keeps `A or forall x. P(x)` usable by the ground stages."""
+    import itertools
+
+    def go(e, pos):
+        if z3.is_quantifier(e):
+            if e.is_forall() == pos and not e.is_lambda():
+                cands = []
+                for i in range(e.num_vars()):
+                    so = e.var_sort(i)
+                    cands.append(int_terms[:8] if so == z3.IntSort() else other_terms.get(so.name() + str(so), [])[:6])
+                if any(not c for c in cands) or e.num_vars() > 3:
+                    return e
+                body = e.body() if e.is_forall() else e.body()
+                outs = []
+                for cmb in itertools.islice(itertools.product(*cands), 80):
+                    inst = norm(z3.substitute_vars(body, *reversed(cmb)))
+                    outs.append(go(inst, pos))
+                if not outs:
+                    return e
+                return z3.And(*outs) if pos else z3.Or(*outs)
+            return e
+        if not z3.is_app(e) or not _has_quant(e):
+            return e
+        k = e.decl().kind()
+        ch = e.children()
+        if k in (z3.Z3_OP_AND, z3.Z3_OP_OR):
+            return e.decl()(*[go(c, pos) for c in ch])
+        if k == z3.Z3_OP_NOT:
+            return z3.Not(go(ch[0], not pos))
+        if k == z3.Z3_OP_IMPLIES:
+            return z3.Implies(go(ch[0], not pos), go(ch[1], pos))
+        return e
+    return go(f, True)
+
+
+def _mentions(e, ids, _c=None):
+    if _c is None:
+        _c = {}
+    k = e.get_id()
+    if k in _c:
+        return _c[k]
+    r = (z3.is_const(e) and k in ids) or (z3.is_app(e) and any(_mentions(c, ids, _c) for c in e.children())) or \
+        (z3.is_quantifier(e) and _mentions(e.body(), ids, _c))
+    _c[k] = r
+    return r
+
+
+def _extract_offsets(fs):
+    """the (non-literal) start offsets of slices in the ground part"""
+    out, seen = [], set()
+
+    def visit(e):
+        if e.get_id() in seen or z3.is_quantifier(e):
+            return
+        seen.add(e.get_id())
+        if z3.is_app(e):
+            if e.decl().kind() == z3.Z3_OP_SEQ_EXTRACT and not z3.is_string(e):
+                lo = e.arg(1)
+                if not z3.is_int_value(lo) and all(not lo.eq(x) for x in out):
+                    out.append(lo)
+            for c in e.children():
+                visit(c)
+    for f in fs:
+        visit(f)
+    return out
+
+
+def _seq_consts(fs):
+    out, seen = [], set()
+
+    def visit(e):
+        if e.get_id() in seen or z3.is_quantifier(e):
+            return
+        seen.add(e.get_id())
+        if z3.is_const(e) and e.sort().kind() == z3.Z3_SEQ_SORT and not z3.is_string(e) and e.decl().kind() == z3.Z3_OP_UNINTERPRETED:
+            out.append(e)
+        if z3.is_app(e):
+            for c in e.children():
+                visit(c)
+    for f in fs:
+        visit(f)
+    return out
+
+
+def instantiate(hyps, ground, max_inst=400, must_mention=None, goal=None, term_ids=False, extra_terms=None):
     """Ground instances of quantified hypotheses: Int variables at the index terms of the ground part,
-    variables of other sorts at the ground terms of that sort (all instances of valid hypotheses are valid)."""
+    variables of other sorts at the ground terms of that sort (all instances of valid hypotheses are valid).
+    must_mention: only instances at a term that mentions one of these constants (second round over fresh witnesses)."""
     insts = []
-    terms = index_terms(ground)
+    terms = index_terms(ground, first=goal)
     extra = [z3.IntVal(0)]
     tl = terms + [t for t in extra if all(not t.eq(x) for x in terms)]
+    wit_terms = None
+    if must_mention is not None:
+        # second round: every index term built from a fresh witness is a candidate (the length-sorted cut-off above would drop most of them)
+        mc0 = {}
+        if term_ids:      # must_mention holds the ids of the terms themselves
+            wit_terms = (list(extra_terms) if extra_terms is not None else [t for t in index_terms(ground, limit=400) if t.get_id() in must_mention])[:60]
+        else:
+            wit_terms = [t for t in index_terms(ground, limit=400) if _mentions(t, must_mention, mc0)][:60]
+        # a witness position shifts by one when an element in front of it is removed, and by the offset of a slice it was found in
+        wcs = [t for t in wit_terms if z3.is_const(t)]
+        wit_terms += [t - 1 for t in wcs][:30]
+        for lo in _extract_offsets(ground)[:3]:
+            wit_terms += [t + lo for t in wcs][:20]
     others = None
     for h in hyps:
         if not (z3.is_quantifier(h) and h.is_forall()):
@@ -210,10 +345,14 @@ def instantiate(hyps, ground, max_inst=400):
         sorts = [h.var_sort(i) for i in range(nv)]
         if all(so == z3.IntSort() for so in sorts):
             if nv == 1:
-                combos = [(t,) for t in tl]
+                combos = [(t,) for t in (tl if wit_terms is None else wit_terms)]
             elif nv == 2:
                 sub = tl[:12]
-                combos = [(a, b) for a in sub for b in sub]
+                if wit_terms is None:
+                    combos = [(a, b) for a in sub for b in sub]
+                else:
+                    w = wit_terms[:18]
+                    combos = [(a, b) for a in sub for b in w] + [(a, b) for a in w for b in sub + w]
             else:
                 continue
         else:
@@ -231,6 +370,11 @@ def instantiate(hyps, ground, max_inst=400):
                 continue
             import itertools
             combos = list(itertools.islice(itertools.product(*cands), 300))
+        if must_mention is not None and not term_ids:
+            mc = {}
+            combos = [cmb for cmb in combos if any(_mentions(t, must_mention, mc) for t in cmb)]
+        elif must_mention is not None:
+            combos = [cmb for cmb in combos if any(t.get_id() in must_mention for t in cmb)]
         for cmb in combos[:max_inst]:
             insts.append(norm(z3.substitute_vars(h.body(), *reversed(cmb))))
     return [i for i in insts if not z3.is_true(i)]
@@ -359,6 +503,172 @@ def norm(f):
     return rewrite(f, _MEMO)
 
 
+class _NoAbstraction(Exception):
+    pass
+
+
+def seq_abstract(fs):
+    """A weaker problem without the sequence theory (unsat there => unsat here).  Sort-directed translation: Seq(T) (strings excepted) becomes an
+    uninterpreted sort U_T, constants / bound variables / uninterpreted functions / arrays over sequences move to the translated sorts,
+    nth(s, i) -> nthU(s', i), len(s) -> lenU(s') with the axiom lenU >= 0, structured sequence terms that the positional rewriting left over
+    (concat, unit, slice, empty) and every other consumer of a sequence (contains, indexof, ...) become one opaque constant per distinct
+    ground term.  Structurally equal terms translate equally, so congruence is kept; everything else the sequence theory knows is dropped.
+    Quantified formulas are translated too (E-matching over nthU/lenU then does the position chasing).  Returns None when the translation
+    does not apply (a datatype with a sequence field, a structured sequence term under a binder)."""
+    usort, memo, opaque, lens_done, lens = {}, {}, {}, set(), []
+    nesting = [0]
+
+    def is_seq_sort(so):
+        return so.kind() == z3.Z3_SEQ_SORT and so != z3.StringSort()
+
+    def T(so):
+        if is_seq_sort(so):
+            k = str(so)
+            if k not in usort:
+                usort[k] = z3.DeclareSort("SeqU%d" % len(usort))
+            return usort[k]
+        if so.kind() == z3.Z3_ARRAY_SORT:
+            d, r = T(so.domain()), T(so.range())
+            return z3.ArraySort(d, r)
+        if so.kind() == z3.Z3_DATATYPE_SORT:
+            for ci in range(so.num_constructors()):
+                con = so.constructor(ci)
+                for ai in range(con.arity()):
+                    if _sort_has_seq(con.domain(ai)):
+                        raise _NoAbstraction()
+        return so
+
+    def _sort_has_seq(so):
+        if is_seq_sort(so):
+            return True
+        if so.kind() == z3.Z3_ARRAY_SORT:
+            return _sort_has_seq(so.domain()) or _sort_has_seq(so.range())
+        if so.kind() == z3.Z3_SEQ_SORT:
+            return False
+        return False
+
+    def lenf(us):
+        return z3.Function("lenU_%s" % us.name(), us, z3.IntSort())
+
+    def go(e, bound):
+        key = (e.get_id(), tuple(b.get_id() for b in bound))
+        if key in memo:
+            return memo[key][1]
+        r = go_(e, bound)
+        memo[key] = (e, r)
+        return r
+
+    def go_(e, bound):
+        if z3.is_quantifier(e):
+            n = e.num_vars()
+            consts = [z3.Const("%s!ab%d_%d" % (e.var_name(i), e.get_id(), i), T(e.var_sort(i))) for i in range(n)]
+            orig = [z3.Const("%s!ob%d_%d" % (e.var_name(i), e.get_id(), i), e.var_sort(i)) for i in range(n)]
+            body = z3.substitute_vars(e.body(), *reversed(orig))
+            sub_bound = list(bound) + orig
+            self_map = {o.get_id(): c for o, c in zip(orig, consts)}
+            saved = dict(binder_map)
+            binder_map.update(self_map)
+            try:
+                tb = go(body, sub_bound)
+            finally:
+                binder_map.clear()
+                binder_map.update(saved)
+            extra = [lenf(c.sort())(c) >= 0 for c in consts if c.sort().kind() == z3.Z3_UNINTERPRETED_SORT and c.sort().name().startswith("SeqU")]
+            if e.is_forall():
+                return z3.ForAll(consts, z3.Implies(z3.And(*extra), tb) if extra else tb)
+            return z3.Exists(consts, z3.And(*(extra + [tb])) if extra else tb)
+        if not z3.is_app(e):
+            raise _NoAbstraction()
+        if e.get_id() in binder_map:
+            return binder_map[e.get_id()]
+        k = e.decl().kind()
+        ch = e.children()
+        so = e.sort()
+        if k == z3.Z3_OP_UNINTERPRETED:
+            args = [go(c, bound) for c in ch]
+            if e.num_args() == 0:
+                if _sort_has_seq(so):
+                    c = z3.Const(e.decl().name() + "!u", T(so))
+                    if is_seq_sort(so) and c.get_id() not in lens_done:
+                        lens_done.add(c.get_id())
+                        lens.append(lenf(c.sort())(c) >= 0)
+                    return c
+                return e
+            if _sort_has_seq(so) or any(_sort_has_seq(c.sort()) for c in ch):
+                f = z3.Function(e.decl().name() + "!u", *([a.sort() for a in args] + [T(so)]))
+                return f(*args)
+            return e.decl()(*args)
+        if k == z3.Z3_OP_SEQ_LENGTH and is_seq_sort(ch[0].sort()):
+            c = go(ch[0], bound)
+            return lenf(c.sort())(c)
+        if (k == z3.Z3_OP_SEQ_NTH or e.decl().name() in ("seq.nth_i", "seq.nth_u")) and is_seq_sort(ch[0].sort()):
+            c = go(ch[0], bound)
+            f = z3.Function("nthU_%s" % c.sort().name(), c.sort(), z3.IntSort(), T(so))
+            return f(c, go(ch[1], bound))
+        if k == z3.Z3_OP_ITE:
+            return z3.If(go(ch[0], bound), go(ch[1], bound), go(ch[2], bound))
+        if k in (z3.Z3_OP_EQ, z3.Z3_OP_DISTINCT):
+            args = [go(c, bound) for c in ch]
+            return args[0] == args[1] if k == z3.Z3_OP_EQ else z3.Distinct(*args)
+        if k in (z3.Z3_OP_SELECT, z3.Z3_OP_STORE, z3.Z3_OP_CONST_ARRAY) and _sort_has_seq(so) | any(_sort_has_seq(c.sort()) for c in ch):
+            args = [go(c, bound) for c in ch]
+            if k == z3.Z3_OP_SELECT:
+                return z3.Select(*args)
+            if k == z3.Z3_OP_STORE:
+                return z3.Store(*args)
+            return z3.K(T(so).domain(), args[0])
+        if is_seq_sort(so) or any(is_seq_sort(c.sort()) for c in ch):
+            # a structured sequence term, or another consumer of a sequence: opaque per distinct ground term
+            if any(_mentions(e, {b.get_id() for b in bound}) for _ in [0]) and bound:
+                raise _NoAbstraction()
+            okey = e.get_id()
+            if okey not in opaque:
+                c = z3.Const("op!%d" % len(opaque), T(so))
+                opaque[okey] = (e, c)
+                if is_seq_sort(so):
+                    lens.append(lenf(c.sort())(c) >= 0)
+                    if k in (z3.Z3_OP_SEQ_EXTRACT, z3.Z3_OP_SEQ_CONCAT, z3.Z3_OP_SEQ_UNIT, z3.Z3_OP_SEQ_EMPTY) and nesting[0] < 2:
+                        nesting[0] += 1
+                        # what the positional rewriting knows about this term, stated for the constant that stands for it
+                        # (the rewriter's out-of-range fallback nth(e, i) translates to nthU(c, i) itself)
+                        i = z3.Const("i!op%d" % len(opaque), z3.IntSort())
+                        ln = go(norm(z3.Length(e)), bound)
+                        lens.append(lenf(c.sort())(c) == ln)
+                        elem = go(norm(e[i]), bound + [])
+                        f = z3.Function("nthU_%s" % c.sort().name(), c.sort(), z3.IntSort(), elem.sort())
+                        lens.append(z3.ForAll([i], z3.Implies(z3.And(0 <= i, i < lenf(c.sort())(c)), f(c, i) == elem)))
+                        nesting[0] -= 1
+            return opaque[okey][1]
+        if e.num_args() == 0:
+            return e
+        args = [go(c, bound) for c in ch]
+        if k == z3.Z3_OP_AND:
+            return z3.And(*args)
+        if k == z3.Z3_OP_OR:
+            return z3.Or(*args)
+        if all(a.eq(b) for a, b in zip(args, ch)):
+            return e
+        return e.decl()(*args)
+
+    binder_map = {}
+    try:
+        out = [go(f, []) for f in fs]
+    except (_NoAbstraction, z3.Z3Exception, RecursionError):
+        return None
+    if not usort:
+        return None
+    return out + lens
+
+
+def _has_var(e, _c={}):
+    k = e.get_id()
+    if k in _c and _c[k][0].eq(e):
+        return _c[k][1]
+    r = z3.is_var(e) or (z3.is_app(e) and any(_has_var(c) for c in e.children())) or (z3.is_quantifier(e) and _has_var(e.body()))
+    _c[k] = (e, r)
+    return r
+
+
 def to_smt2(hyps, neg_goal):
     s = z3.Solver()
     for h in hyps:
@@ -422,6 +732,136 @@ def open_hyps(hyps, n=[0]):
     return hyps
 
 
+def seq_defs(fs):
+    """[(c, t, f)]: hypotheses f of the shape c == t for a sequence constant c and a structured sequence term t (slice, concatenation, unit)
+    that does not mention c.  Replacing c by t everywhere is an equivalence; it lets the positional rewriting of nth/len over t reach every use of c."""
+    out, taken = [], set()
+    for f in fs:
+        if z3.is_eq(f) and f.arg(0).sort().kind() == z3.Z3_SEQ_SORT and not z3.is_string(f.arg(0)):
+            for c, t in ((f.arg(0), f.arg(1)), (f.arg(1), f.arg(0))):
+                if z3.is_const(c) and c.decl().kind() == z3.Z3_OP_UNINTERPRETED and c.get_id() not in taken and z3.is_app(t) and \
+                        t.decl().kind() in (z3.Z3_OP_SEQ_EXTRACT, z3.Z3_OP_SEQ_CONCAT, z3.Z3_OP_SEQ_UNIT) and not _mentions(t, {c.get_id()} | taken):
+                    out.append((c, t, f))
+                    taken.add(c.get_id())
+                    break
+    return out
+
+
+def apply_seq_defs(defs, fs):
+    if not defs:
+        return fs
+    skip = {f.get_id() for _, _, f in defs}
+    pairs = [(c, t) for c, t, _ in defs]
+    out = []
+    for f in fs:
+        if f.get_id() in skip:
+            continue
+        g = f
+        for _ in range(3):          # definitions may mention earlier-defined constants
+            g2 = z3.substitute(g, *pairs)
+            if g2.eq(g):
+                break
+            g = g2
+        out.append(norm(g) if not g.eq(f) else f)
+    return [f for f in flatten_and(out) if not z3.is_true(f)]
+
+
+def prepare_deep(hyps, ng, quant, ground, gr0, lean):
+    """The expensive variants of one sub-problem, built only when the lean stages did not decide it."""
+    sub = {}
+    # ---- the deep instance set (ground only): goal terms first, witnesses of existential conclusions as terms of a second round,
+    #      and for position-by-position list models the neighbouring positions in a third
+    defs = seq_defs(hyps)
+    if defs:
+        hyps_d = apply_seq_defs(defs, hyps)
+        ng = apply_seq_defs(defs, [ng])
+        ng = ng[0] if len(ng) == 1 else z3.And(*ng) if ng else z3.BoolVal(True)
+        ground = [h for h in hyps_d if not _has_quant(h)] + [ng]
+        quant = [h for h in hyps_d if _has_quant(h)]
+        if _has_quant(ng):
+            u = _neg_exists_as_forall(ng)
+            if u is not None:
+                quant = quant + [u]
+        gr0 = [h for h in hyps_d if not _has_quant(h)]
+    # the negated goal, opened: existential parts get witnesses, negated existentials become universal facts to instantiate
+    wit = []
+    parts = flatten_and([skolemize_pos(ng, wit)])
+    if len(parts) > 1 or wit:
+        ngs = []
+        for pt in parts:
+            u = _neg_exists_as_forall(pt) if _has_quant(pt) else None
+            if u is not None:
+                quant = quant + [u]
+            elif z3.is_quantifier(pt) and pt.is_forall():
+                quant = quant + [pt]
+            else:
+                ngs.append(pt)
+        ground = [h for h in ground[:-1]] + ngs
+        ng = z3.And(*parts) if len(parts) > 1 else parts[0]
+        goal_terms = ngs or [ng]
+    else:
+        goal_terms = [ng]
+    # phase 1: the abstraction with the quantified hypotheses kept (lean instance set): the solver's own E-matching over nthU/lenU
+    abq = seq_abstract(gr0 + quant + goal_terms + [i for i in lean if not _has_quant(i)][:200])
+    if abq is not None:
+        sub["abstract_q"] = to_smt2(abq, z3.BoolVal(True))
+    sub["_deep2"] = (ng, quant, ground, gr0, lean, goal_terms, wit)
+    return sub
+
+
+def prepare_deep2(ng, quant, ground, gr0, lean, goal_terms, wit):
+    """phase 2: the layered ground instance set and its abstraction"""
+    sub = {}
+    insts = instantiate(quant, ground, goal=goal_terms)
+    insts = [skolemize_pos(i, wit) for i in insts]
+    if wit:
+        ids = {c.get_id() for c in wit}
+        insts2 = instantiate(quant, ground + insts, must_mention=ids, goal=goal_terms, max_inst=700)
+        insts += [skolemize_pos(i, wit) for i in insts2]
+    # further rounds: index terms that the instances themselves introduced (neighbouring positions k+1, re-indexed positions
+    # len-1-(c-r0), ...) need their own instances; chains list -> moved list -> dependency list are three layers deep
+    seen_t = {t.get_id() for t in index_terms(ground, limit=400)}
+    scs = _seq_consts(ground)
+    ends = [z3.Length(sc) - 1 for sc in scs][:6] + [z3.Length(sc) for sc in scs][:6]
+    for layer in range(3):
+        wids = {c.get_id() for c in wit}
+        mcw = {}
+        fresh_terms = [t for t in index_terms(ground + insts, limit=600)
+                       if t.get_id() not in seen_t and not _mentions(t, wids, mcw) and not z3.is_int_value(t)][:(40 if layer == 0 else 14)]
+        if layer == 0:
+            # ... and the last position of every list constant (where append puts its element)
+            fresh_terms = fresh_terms[:10] + ends + fresh_terms[10:]
+        if not fresh_terms:
+            break
+        fid = set()
+        for t in fresh_terms:
+            fid.add(t.get_id())
+            seen_t.add(t.get_id())
+        insts3 = instantiate(quant, ground + insts, must_mention=fid, term_ids=True, goal=goal_terms, max_inst=1100 if layer == 0 else 300,
+                             extra_terms=fresh_terms)
+        n_before = len(wit)
+        insts += [skolemize_pos(i, wit) for i in insts3]
+        if len(wit) > n_before:
+            # witnesses found at this layer: their instances too
+            nid = {c.get_id() for c in wit[n_before:]}
+            insts4 = instantiate(quant, ground + insts, must_mention=nid, goal=goal_terms, max_inst=300)
+            insts += [skolemize_pos(i, wit) for i in insts4]
+    em = ematch(quant, ground + insts)
+    ids = {i.get_id() for i in insts}
+    insts += [e_ for e_ in em if e_.get_id() not in ids]
+    if any(_has_quant(i) for i in insts):
+        it = index_terms(ground, first=goal_terms)
+        ot = sorted_terms(ground)
+        insts = [weaken_foralls(i, it, ot) if _has_quant(i) else i for i in insts]
+    deep = gr0 + insts
+    if wit or len(insts) != len(lean):
+        sub["deep"] = to_smt2(deep, ng)
+    ab = seq_abstract([x for x in deep + goal_terms if not _has_quant(x)])
+    if ab is not None:
+        sub["abstract"] = to_smt2(ab, z3.BoolVal(True))
+    return sub
+
+
 def prepare(ob):
     """-> list of sub-problems: dict(full=smt2, ground=smt2)"""
     _MEMO.clear()
@@ -441,12 +881,16 @@ def prepare(ob):
             u = _neg_exists_as_forall(ng)
             if u is not None:
                 quant = quant + [u]
-        insts = instantiate(quant, ground)
-        em = ematch(quant, ground + insts)
-        em += ematch(quant, ground + insts + em)      # second round: instances expose new terms
-        ids = {i.get_id() for i in insts}
-        insts += [e_ for e_ in em if e_.get_id() not in ids]
-        subs.append({"full": to_smt2(hyps + insts, ng), "ground": to_smt2([h for h in hyps if not _has_quant(h)] + insts, ng)})
+        # ---- the lean instance set (one round at the ground index terms + E-matching): given to every back end, with and without the quantified originals
+        lean = instantiate(quant, ground)
+        em = ematch(quant, ground + lean)
+        em += ematch(quant, ground + lean + em)      # second round: instances expose new terms
+        ids = {i.get_id() for i in lean}
+        lean += [e_ for e_ in em if e_.get_id() not in ids]
+        gr0 = [h for h in hyps if not _has_quant(h)]
+        sub = {"full": to_smt2(hyps + lean, ng), "ground": to_smt2(gr0 + lean, ng)}
+        sub["_deep"] = (hyps, ng, quant, ground, gr0, lean)
+        subs.append(sub)
     return subs
 
 
@@ -500,6 +944,10 @@ def _cli(cmd, smt2, timeout_s):
     return ans, time.time() - t
 
 
+def ground_sat_is_final(sub):
+    return False
+
+
 def solve_sub(sub, expect="unsat", thorough=False):
     """-> dict(status, backend, time, model, log).  Staged portfolio; `unsat` from any stage discharges (every stage uses only
     hypotheses of the obligation or valid instances of them), `sat` counts as a refutation only from a stage that had all hypotheses."""
@@ -532,7 +980,43 @@ def solve_sub(sub, expect="unsat", thorough=False):
     has_ground = sub["ground"] != sub["full"]
     ground_model = None
     ground_sat = False
+    r0 = None
     if has_ground:
+        # the cheap stages first: most obligations end here
+        r0, m0 = z3api("ground", "z3-5.1/ground-instances", 3000, want_model=True)
+        if r0 == "unsat":
+            return done("unsat", "z3-5.1/ground-instances")
+        if r0 == "sat":
+            ground_sat, ground_model = True, m0
+    rq_, mq_ = z3api("full", "z3-5.1", 2500, want_model=True)
+    if rq_ == "unsat":
+        return done("unsat", "z3-5.1")
+    if rq_ == "sat":
+        return done("sat", "z3-5.1", mq_)
+    if "_deep" in sub:
+        t_ = time.time()
+        try:
+            sub.update(prepare_deep(*sub.pop("_deep")))
+        except Exception as e:      # the extra variants are optional
+            log.append(("deep-prepare-error", repr(e)[:200], 0))
+        total[0] += time.time() - t_
+    if "abstract_q" in sub:
+        # the sequence theory abstracted away (a weaker problem), quantified hypotheses kept: only `unsat` means anything
+        rq, _ = z3api("abstract_q", "z3-5.1/no-seq-theory", 8000)
+        if rq == "unsat":
+            return done("unsat", "z3-5.1/no-seq-theory")
+    if "_deep2" in sub:
+        t_ = time.time()
+        try:
+            sub.update(prepare_deep2(*sub.pop("_deep2")))
+        except Exception as e:
+            log.append(("deep-prepare-error", repr(e)[:200], 0))
+        total[0] += time.time() - t_
+    if "abstract" in sub:
+        ra, _ = z3api("abstract", "z3-5.1/ground-instances/no-seq-theory", 4000)
+        if ra == "unsat":
+            return done("unsat", "z3-5.1/ground-instances/no-seq-theory")
+    if has_ground and not ground_sat:
         r0, m0 = z3api("ground", "z3-5.1/ground-instances", 6000, want_model=True)
         if r0 == "unsat":
             return done("unsat", "z3-5.1/ground-instances")
@@ -543,6 +1027,10 @@ def solve_sub(sub, expect="unsat", thorough=False):
             if a == "unsat":
                 return done("unsat", "cvc5-1.0.3/ground-instances")
             ground_sat = a == "sat"
+    if "deep" in sub and not ground_sat_is_final(sub):
+        rd, _ = z3api("deep", "z3-5.1/deep-instances", 6000)
+        if rd == "unsat":
+            return done("unsat", "z3-5.1/deep-instances")
     r, model = z3api("full", "z3-5.1", T_Z3, want_model=True)
     if r == "unsat":
         return done("unsat", "z3-5.1")
@@ -562,6 +1050,10 @@ def solve_sub(sub, expect="unsat", thorough=False):
             a = cli("ground", "z3-4.8.12/ground-instances", Z3OLD)
             if a == "unsat":
                 return done("unsat", "z3-4.8.12/ground-instances")
+    if "deep" in sub:
+        a = cli("deep", "cvc5-1.0.3/deep-instances", CVC5)
+        if a == "unsat":
+            return done("unsat", "cvc5-1.0.3/deep-instances")
     a = cli("full", "z3-4.8.12", Z3OLD)
     if a in ("unsat", "sat"):
         return done(a, "z3-4.8.12", ground_model if a == "sat" else None)
